@@ -318,7 +318,8 @@ def ev(n: ast.AST, env: dict[str, Any], funcs: dict[str, ast.FunctionDef] | None
             recv = ev(n.func.value, env, funcs, depth)
             if isinstance(recv, str) and n.func.attr in _STR_METHODS:
                 return getattr(recv, n.func.attr)(*args, **kws)
-            if isinstance(recv, float) and n.func.attr in ("as_integer_ratio", "is_integer"):
+            if isinstance(recv, (int, float)) and not isinstance(recv, bool) and n.func.attr in ("as_integer_ratio", "is_integer", "bit_length", "conjugate") \
+                    and hasattr(recv, n.func.attr):
                 return getattr(recv, n.func.attr)()
             if isinstance(recv, _OPEN) or recv is _dt or (isinstance(recv, type) and recv in _STD_CLASSES):
                 f = _attr(recv, n.func.attr, funcs, depth)
